@@ -250,6 +250,8 @@ class RiscV(Machine):
         self.r[1] = RET
         self.r[10], self.r[11], self.r[12] = a0, a1, a2
         self.reserved_reported = False
+        self.sp_reported = False
+        self.sp_align = 4 if self.nregs == 16 else 16
         # sp, s0-s11, and gp / tp, which the psABI reserves (a function never changes them)
         self.saved = {i: self.r[i] for i in [2, 3, 4, 8, 9] + list(range(18, 28)) if i < self.nregs}
 
@@ -268,6 +270,11 @@ class RiscV(Machine):
             self.violations.append("writes the reserved register %s (a signal handler or interrupt taken meanwhile relies on it)" % self.NAMES[i])
         if i:
             self.r[i] = v & self.MASK
+        if i == 2 and (v & self.MASK) % self.sp_align and not self.sp_reported:
+            # psABI: the stack pointer stays aligned (16 bytes; 4 for the RV32E calling convention) throughout the procedure -
+            # an interrupt or signal handler starts from whatever sp it finds
+            self.sp_reported = True
+            self.violations.append("stack pointer 0x%x is not %d-byte aligned while the routine runs" % (v & self.MASK, self.sp_align))
 
     def sext(self, v, bits):
         v &= (1 << bits) - 1
